@@ -222,6 +222,8 @@ def run_property(pid, tier="quick", replay=None, repo_root=None, write_evidence=
             from . import canon
             ref = Repo(canon.REFERENCE_DIR)
             rewritten = canon.rewritten_functions(repo, ref)
+            if os.environ.get("TMVERIF_GATE_ALL") and not rewritten:
+                rewritten = ["(any edit)"]
             if rewritten:
                 n_dn = 0
                 for r in verdicts:
